@@ -4,6 +4,7 @@ namespace PyIpmi.Lemmas.Api
 open PyIpmi PyIpmi.Codec PyIpmi.Spec.Bmc PyIpmi.Model.Api PyIpmi.Gen.Tables
 
 set_option maxRecDepth 4000
+set_option linter.unusedSimpArgs false
 
 theorem get_chassis_status_refines (s : BmcState) (hw : s.chassis.Wf) :
     api_get_chassis_status.run s = (s, .ok (.chassis (get_chassis_status s))) := by
@@ -20,5 +21,93 @@ theorem get_chassis_status_refines (s : BmcState) (hw : s.chassis.Wf) :
   cases frontPanel <;>
   · simp [api_get_chassis_status, api_eval, fmtChassis, get_chassis_status, hd]
     bits_close
+
+theorem chassis_control_refines (opt : Nat) (s : BmcState) (h : opt < 16) :
+    (api_chassis_control opt).run s = (chassis_control opt s, .ok .unit) := by
+  simp [api_chassis_control, api_eval, bitsOf]
+  congr 1; omega
+
+/-- the six wrappers pass the option codes of IPMI 28.3 in this order -/
+theorem chassisControlOption_law : chassisControlOption = [0, 1, 2, 3, 4, 5] := by decide
+
+theorem chassis_control_named_refines (idx : Nat) (s : BmcState) (h : idx < 6) :
+    (api_chassis_control_named idx).run s = (chassis_control idx s, .ok .unit) := by
+  unfold api_chassis_control_named
+  rw [chassisControlOption_law]
+  have : ([0, 1, 2, 3, 4, 5] : List Nat)[idx]? = some idx := by
+    rcases idx with _ | _ | _ | _ | _ | _ | n <;> first | rfl | omega
+  rw [this]
+  exact chassis_control_refines idx s (by omega)
+
+theorem get_system_boot_options_refines (sel setSel blk : Nat) (s : BmcState)
+    (h : (Call.getBootParam sel setSel blk).InRange) :
+    (api_get_system_boot_options sel setSel blk).run s = (s, .ok (.bytes (get_boot_param sel setSel s))) := by
+  obtain ⟨h1, h2, h3⟩ := h
+  simp [api_get_system_boot_options, getBootOptions, api_eval, bitsOf, Nat.mod_eq_of_lt, *]
+
+theorem set_system_boot_options_refines (sel : Nat) (data : List Nat) (invalid : Bool) (s : BmcState)
+    (h : sel < 128) :
+    (api_set_system_boot_options sel data invalid).run s = (set_boot_param sel invalid data s, .ok .unit) := by
+  have := b2n_le invalid
+  simp [api_set_system_boot_options, api_eval, bitsOf]
+  congr 1
+  · omega
+  · apply bitOf_of_eq; omega
+
+/-- boot flag bits of parameter 5 -/
+theorem get_boot_mode_refines (s : BmcState) (hw : 1 ≤ (get_boot_param 5 0 s).length) :
+    api_get_boot_mode.run s = (s, .ok (.bool (get_boot_flags s).efi)) := by
+  simp [api_get_boot_mode, getBootOptions, api_eval, bitsOf, bootFlagsSelector]
+  cases hd : get_boot_param 5 0 s with
+  | nil => simp [hd] at hw
+  | cons d0 t =>
+    simp [get_boot_flags, hd, bitOf]
+
+theorem get_boot_persistency_refines (s : BmcState) (hw : 1 ≤ (get_boot_param 5 0 s).length) :
+    api_get_boot_persistency.run s = (s, .ok (.bool (get_boot_flags s).persistent)) := by
+  simp [api_get_boot_persistency, getBootOptions, api_eval, bitsOf, bootFlagsSelector]
+  cases hd : get_boot_param 5 0 s with
+  | nil => simp [hd] at hw
+  | cons d0 t => simp [get_boot_flags, hd, bitOf]
+
+/-- TABLE LAW (generated CONVERT_RAW_TO_BOOT_DEVICE): every 4-bit selector maps to the device the
+specification's table 28-14 names for it, reserved selectors are not in the table -/
+theorem rawToBootDevice_law :
+    (List.range 16).all (fun c => lookup rawToBootDevice c == (BootDev.ofCode c).map bootDevIdx) = true := by
+  decide +kernel
+
+theorem rawToBootDevice_spec (c : Nat) (h : c < 16) :
+    lookup rawToBootDevice c = (BootDev.ofCode c).map bootDevIdx := by
+  have := List.all_eq_true.mp rawToBootDevice_law c (List.mem_range.mpr h)
+  simpa using this
+
+/-- TABLE LAW (generated CONVERT_BOOT_DEVICE_TO_RAW): every device maps to its selector of table 28-14 -/
+theorem bootDeviceToRaw_spec (d : BootDev) : lookup bootDeviceToRaw (bootDevIdx d) = some d.code := by
+  cases d <;> decide +kernel
+
+theorem bootDev_all_idx (d : BootDev) : BootDev.all[bootDevIdx d]? = some d := by
+  cases d <;> rfl
+
+theorem get_boot_device_refines (s : BmcState) (hw : 2 ≤ (get_boot_param 5 0 s).length) :
+    api_get_boot_device.run s = present (s, .bootDev (BootDev.ofCode (get_boot_flags s).device)) := by
+  simp [api_get_boot_device, getBootOptions, api_eval, bitsOf, bootFlagsSelector]
+  rcases hd : get_boot_param 5 0 s with _ | ⟨d0, _ | ⟨d1, t⟩⟩
+  · simp [hd] at hw
+  · simp [hd] at hw
+  · have hc : d1 / 4 % 16 < 16 := by omega
+    simp [get_boot_flags, hd, bitsOf, present, rawToBootDevice_spec _ hc]
+    cases hb : BootDev.ofCode (d1 / 4 % 16) with
+    | none => simp [Result.toOutcome]
+    | some b => simp [Result.toOutcome, bootDev_all_idx]
+
+theorem set_boot_options_refines (dev : BootDev) (efi persistent : Bool) (s : BmcState) :
+    (api_set_boot_options dev efi persistent).run s =
+      (set_boot_flags { valid := true, persistent := persistent, efi := efi, device := dev.code } s, .ok .unit) := by
+  have hc : dev.code * 4 < 256 := by cases dev <;> decide
+  unfold api_set_boot_options
+  simp only [bootDeviceToRaw_spec]
+  rw [if_neg (by omega)]
+  rw [set_system_boot_options_refines _ _ _ _ (by decide)]
+  cases efi <;> cases persistent <;> simp [set_boot_flags, b2n, bootFlagsSelector]
 
 end PyIpmi.Lemmas.Api
